@@ -19,9 +19,37 @@ def align_up(v, k):
     return ((v + m - 1) // m) * m
 
 
-def with_pre(strategy):
-    """Add the 'pre' key (0, 0, 0, 1 or 2 throw-away elaborations before simulating) to a dict spec."""
-    return st.tuples(strategy, st.sampled_from([0, 0, 0, 1, 2])).map(lambda t: dict(t[0], pre=t[1]))
+SIM_PROPS = ("C04", "C05", "C06", "C07", "C08", "C09", "C10", "C12", "C13", "C14", "C15", "C16")
+
+
+def _strip(spec):
+    return {k: v for k, v in spec.items() if k != "companions"}
+
+
+def _prop_strategy(pid):
+    import importlib
+    return importlib.import_module(f"vlib.props.{pid}").strategy("quick").map(_strip)
+
+
+def with_pre(strategy, prelude=True, flush=0):
+    """Add the 'pre' key (0, 0, 0, 1 or 2 throw-away elaborations before simulating) to a dict spec
+    and, for one case in six, 'companions': other cases that share the design with this one (see
+    sim.run_case) - an identically configured twin, an independent case of the same property, or a
+    case of another property (a different library component)."""
+    base = st.tuples(strategy, st.sampled_from([0, 0, 0, 1, 2])).map(lambda t: dict(t[0], pre=t[1]))
+    if prelude:
+        # one case in six starts from a domain reset that follows some cycles of garbage on all inputs
+        pl = st.fixed_dictionaries({"cycles": st.integers(1, 12), "dseed": st.integers(0, 1 << 30), "flush": st.just(flush)})
+        plain = base
+        base = weighted((5, plain), (1, st.tuples(plain, pl).map(lambda t: dict(t[0], prelude=t[1]))))
+    common = {"delay": st.sampled_from([0, 1, 1, 2, 3, 5]), "first": st.booleans()}
+    twin = st.fixed_dictionaries(dict(common, kind=st.just("twin"), reseed=st.booleans()))
+    other = st.fixed_dictionaries(dict(common, kind=st.just("other"), spec=base))
+    cross = st.sampled_from(SIM_PROPS).flatmap(lambda pid: st.fixed_dictionaries(
+        dict(common, kind=st.just("cross"), prop=st.just(pid), spec=st.deferred(lambda: _prop_strategy(pid)))))
+    comp = weighted((3, twin), (2, other), (1, cross))
+    grouped = st.tuples(base, st.lists(comp, min_size=1, max_size=2)).map(lambda t: dict(t[0], companions=t[1]))
+    return weighted((5, base), (1, grouped))
 
 
 def weighted(*pairs):
@@ -342,6 +370,78 @@ FEATURES = ["err", "rty", "stall", "lock", "cti", "bte"]
 
 def wb_features():
     return st.lists(st.sampled_from(FEATURES), unique=True, max_size=6).map(sorted)
+
+
+# how a caller may legally spell an `iter(Feature)` argument: any iterable of names or members
+FEATURE_STYLES = ("list", "list", "enum", "mixed", "mixed", "tuple", "set", "frozenset", "gen", "iter", "map", "keys")
+# what the caller does with his own container / with a container the object hands out, afterwards
+FEATURE_TAMPER = (None, None, None, None, "caller_toggle_lock", "caller_clear", "caller_fill", "returned")
+
+
+def spell_features(feat, style):
+    """The feature names ``feat`` as the Python object a caller would pass. Old specs use False
+    (names), True (members) and "mixed"."""
+    from amaranth_soc.wishbone import Feature
+    feat = list(feat)
+    if style in (False, None, "list"):
+        return list(feat)
+    if style in (True, "enum"):
+        return [Feature(x) for x in feat]
+    mixed = [Feature(x) if k % 2 == 0 else x for k, x in enumerate(feat)]
+    if style == "mixed":
+        return mixed
+    if style == "tuple":
+        return tuple(mixed)
+    if style == "set":
+        return set(feat)
+    if style == "frozenset":
+        return frozenset(Feature(x) for x in feat)
+    if style == "gen":
+        return (x for x in mixed)
+    if style == "iter":
+        return iter(feat)
+    if style == "map":
+        return map(Feature, feat)
+    if style == "keys":
+        return {x: None for x in feat}.keys()
+    raise ValueError(style)
+
+
+def tamper_features(passed, obj, how):
+    """After construction: the caller reuses his own container (``passed``) for something else, or
+    updates in place whatever ``obj.features`` hands out (a no-op rebinding for an immutable value).
+    Neither may change the constructed object."""
+    from amaranth_soc.wishbone import Feature
+    if how is None:
+        return
+    if how == "returned":
+        for target in ([obj] + ([obj.signature] if hasattr(obj, "signature") else [])):
+            got = target.features
+            for m, arg in (("add", Feature.LOCK), ("add", Feature.STALL), ("discard", Feature.ERR), ("discard", Feature.CTI)):
+                if hasattr(got, m):
+                    getattr(got, m)(arg)
+            try:
+                got |= {Feature.BTE}
+            except TypeError:
+                pass
+        return
+    if isinstance(passed, list):
+        if how == "caller_toggle_lock":
+            if any(Feature(x) == Feature.LOCK for x in passed):
+                passed[:] = [x for x in passed if Feature(x) != Feature.LOCK]
+            else:
+                passed.append("lock")
+        elif how == "caller_clear":
+            del passed[:]
+        else:
+            passed[:] = list(Feature)
+    elif isinstance(passed, set):
+        if how == "caller_toggle_lock":
+            passed.symmetric_difference_update({"lock"})
+        elif how == "caller_clear":
+            passed.clear()
+        else:
+            passed.update(x.value for x in Feature)
 
 
 @st.composite
